@@ -5,5 +5,7 @@ use std::task::Waker;
 pub struct SignalState {
     pub fired: bool,
     pub registered: bool,
+    /// the handler also covers SIGTERM / SIGHUP (the `termination` feature of the ctrlc crate)
+    pub handles_term: bool,
     pub wakers: Vec<Waker>,
 }
